@@ -54,6 +54,8 @@ CONSTANTS Server,            \* 1..N, N >= 2
           Campaigners,       \* nodes whose Campaign() is explored (Server in the faithful instances; a subset only to guide attack searches)
           MaxTerm, MaxProposals, MaxCrashes, MaxDrops, MaxDups, MaxHeartbeats, MaxLog, MaxNet,
           MaxEnts,           \* 0 = unlimited entries per MsgApp, k > 0 = at most k
+          LossySend,         \* TRUE: an action may lose any subset of the messages it produces at send time (= action followed by
+                             \* Drop of those messages, without the intermediate states; used only to make attack searches cheap)
           W_CommitAnyTerm,          \* log.go maybeCommit without the term test
           W_VoteIgnoreVoted,        \* raft.go Step: canVote always true
           W_VoteIgnoreLog,          \* raft.go Step: isUpToDate not consulted
@@ -120,6 +122,15 @@ BagAddAll(b, ms) == IF ms = <<>> THEN b ELSE BagAddAll(BagAdd(b, Head(ms)), Tail
 NetSize(b) == IF DOMAIN b = {} THEN 0 ELSE LET RECURSIVE Sum(_)
                                                  Sum(S) == IF S = {} THEN 0 ELSE LET x == CHOOSE x \in S : TRUE IN b[x] + Sum(S \ {x})
                                              IN Sum(DOMAIN b)
+
+SelectIdx(ms, S) == LET RECURSIVE Sel(_)
+                        Sel(k) == IF k > Len(ms) THEN <<>> ELSE (IF k \in S THEN <<ms[k]>> ELSE <<>>) \o Sel(k + 1)
+                    IN Sel(1)
+(* put the messages ms produced by an action on the network (all of them unless LossySend) and record the action *)
+SendSome(base, ms, a) ==
+    \E S \in (IF LossySend THEN SUBSET (1..Len(ms)) ELSE {1..Len(ms)}) :
+        /\ net' = BagAddAll(base, SelectIdx(ms, S))
+        /\ act' = a @@ [lost |-> SelectIdx(ms, (1..Len(ms)) \ S)]
 
 (* ------------------------------ progress ------------------------------ *)
 IsPaused(p) == p.state = Probe /\ p.probesent      \* Replicate: inflights never full (window 256)
@@ -228,9 +239,8 @@ Campaign(i) ==
            ms == Concat([j \in Server \ {i} |-> <<Msg("Vote", i, j, t, Len(log[i]), LastTerm(log[i]), 0, FALSE, 0, <<>>)>>], Server \ {i})
        IN /\ Update(i, "C", t, i, 0, log[i], commit[i], [NoVotes EXCEPT ![i] = "y"], NoPr, FALSE)
           /\ Hist(i, "C", t, log[i])
-          /\ net' = BagAddAll(net, ms)
+          /\ SendSome(net, ms, [name |-> "Campaign", i |-> i])
     /\ Budgets
-    /\ act' = [name |-> "Campaign", i |-> i]
 
 (* becomeLeader + bcastAppend + the leader's own ack in advance() *)
 LeaderStart(i, t, lg0, cmt) ==
@@ -242,17 +252,16 @@ LeaderStart(i, t, lg0, cmt) ==
     IN [lg |-> lg, P |-> a.P, c |-> a.c, m |-> b.m \o a.m]
 
 (* RawNode.Propose on the leader *)
-Propose(i) ==
+Propose(i, v) ==
     /\ role[i] = "L" /\ nprop < MaxProposals
-    /\ LET lg == Append(log[i], [t |-> term[i], p |-> nprop + 1])
+    /\ LET lg == Append(log[i], [t |-> term[i], p |-> v])
            b == Bcast(i, lg, commit[i], term[i], pr[i])
            a == AckOK(i, i, Len(lg), lg, commit[i], term[i], b.P)
        IN /\ Update(i, "L", term[i], vote[i], lead[i], lg, a.c, votes[i], a.P, TRUE)
           /\ Hist(i, "L", term[i], lg)
-          /\ net' = BagAddAll(net, b.m \o a.m)
+          /\ SendSome(net, b.m \o a.m, [name |-> "Propose", i |-> i, v |-> v])
     /\ nprop' = nprop + 1
     /\ UNCHANGED <<ncrash, ndrop, ndup, nhb>>
-    /\ act' = [name |-> "Propose", i |-> i, v |-> nprop + 1]
 
 (* RawNode.Tick on the leader with HeartbeatTick = 1: MsgBeat -> bcastHeartbeat *)
 Heartbeat(i) ==
@@ -260,10 +269,9 @@ Heartbeat(i) ==
     /\ LET ms == Concat([j \in Server \ {i} |->
                     <<Msg("HB", i, j, term[i], 0, 0,
                           IF W_HeartbeatCommitUnbounded THEN commit[i] ELSE Min2(pr[i][j].match, commit[i]), FALSE, 0, <<>>)>>], Server \ {i})
-       IN net' = BagAddAll(net, ms)
+       IN SendSome(net, ms, [name |-> "Heartbeat", i |-> i])
     /\ nhb' = nhb + 1
     /\ UNCHANGED <<nodeVars, nprop, ncrash, ndrop, ndup, elected, gc, gct, lcok>>
-    /\ act' = [name |-> "Heartbeat", i |-> i]
 
 (* Step prologue (raft.go 867-938): state of m.to after the term comparison, for m.tm >= term *)
 T0(m) == IF m.tm > term[m.to] THEN m.tm ELSE term[m.to]
@@ -274,9 +282,8 @@ L0(m) == IF m.tm > term[m.to] THEN (IF m.ty \in {"App", "HB"} THEN m.fr ELSE 0) 
 Receivable(m) == m \in DOMAIN net /\ Up(m.to)
 
 Finish(m, ms) ==
-    /\ net' = BagAddAll(BagDel(net, m), ms)
+    /\ SendSome(BagDel(net, m), ms, [name |-> "Deliver", m |-> m])
     /\ Budgets
-    /\ act' = [name |-> "Deliver", m |-> m]
 
 (* a message from a lower term: ignored (CheckQuorum and PreVote are off) *)
 DeliverStale(m) ==
@@ -416,11 +423,10 @@ Dup(m) ==
 
 (* Crash: everything volatile is lost; the commit-only HardState written since the last synced write *)
 (* survives (keep = 1) or not (keep = 0): node.go MustSync.                                            *)
-Crash(i, keep) ==
+CrashTo(i, c) ==
     /\ Up(i) /\ ncrash < MaxCrashes
-    /\ (keep = 0 => sc[i] # hs[i].commit)
-    /\ LET c == IF keep = 1 THEN hs[i].commit ELSE sc[i]
-       IN /\ role' = [role EXCEPT ![i] = "D"]
+    /\ sc[i] <= c /\ c <= hs[i].commit
+    /\    /\ role' = [role EXCEPT ![i] = "D"]
           /\ term' = [term EXCEPT ![i] = hs[i].term]
           /\ vote' = [vote EXCEPT ![i] = hs[i].vote]
           /\ lead' = [lead EXCEPT ![i] = 0]
@@ -432,6 +438,10 @@ Crash(i, keep) ==
           /\ pr' = [pr EXCEPT ![i] = NoPr]
     /\ ncrash' = ncrash + 1
     /\ UNCHANGED <<log, net, nprop, ndrop, ndup, nhb, elected, gc, gct, lcok>>
+
+Crash(i, keep) ==
+    /\ (keep = 0 => sc[i] # hs[i].commit)
+    /\ CrashTo(i, IF keep = 1 THEN hs[i].commit ELSE sc[i])
     /\ act' = [name |-> "Crash", i |-> i, keep |-> keep]
 
 (* NewRawNode from storage (newRaft/loadState) + the Ready cycle applying the committed entries *)
@@ -443,7 +453,7 @@ Restart(i) ==
     /\ act' = [name |-> "Restart", i |-> i]
 
 Next ==
-    \/ \E i \in Server : Campaign(i) \/ Propose(i) \/ Heartbeat(i) \/ Restart(i) \/ \E k \in {0, 1} : Crash(i, k)
+    \/ \E i \in Server : Campaign(i) \/ Propose(i, nprop + 1) \/ Heartbeat(i) \/ Restart(i) \/ \E k \in {0, 1} : Crash(i, k)
     \/ \E m \in DOMAIN net : \/ DeliverStale(m) \/ DeliverVote(m) \/ DeliverVoteResp(m) \/ DeliverApp(m)
                              \/ DeliverAppResp(m) \/ DeliverHB(m) \/ DeliverHBResp(m) \/ Drop(m) \/ Dup(m)
 
@@ -477,6 +487,13 @@ HardStateStep ==
         /\ (hs'[i].term = hs[i].term /\ hs[i].vote # 0 => hs'[i].vote = hs[i].vote)
         /\ (hs'[i].commit >= hs[i].commit \/ (role'[i] = "D" /\ role[i] # "D" /\ hs'[i].commit >= sc[i]))
 HardStateMonotonic == [][HardStateStep]_vars
+
+(* what a leader believes a follower of its own term holds (Progress.Match) is really there: the premise of commit counting *)
+MatchSound ==
+    \A i \in Server, j \in Server :
+        (role[i] = "L" /\ j # i /\ term[j] = term[i]) =>
+            /\ Len(log[j]) >= pr[i][j].match
+            /\ SubSeq(log[j], 1, pr[i][j].match) = SubSeq(log[i], 1, pr[i][j].match)
 
 Safety == ElectionSafety /\ LogMatching /\ StateMachineSafety /\ LeaderCompleteness
 =============================================================================
